@@ -22,8 +22,10 @@ CONFORM = ['absent', 'none', 'value', 'value-static', 'value-instfunc', 'value-c
            'attr-None-class', 'attr-None-instance']
 PROVIDED = ['no', 'class', 'direct']
 ALT = ['absent', 'given', 'none']
-CUSTOM = ['none'] + ['%s:%s' % (s, b) for s in ('own', 'inherited', 'inherited2', 'inherited-deep')
-                     for b in ('none', 'value', 'raise', 'super')]
+# 'other-only:default': an interface class of its own (an interfacemethod) that does not customise __adapt__; placed
+# right before the customised ones and collected at once, so that their classes may land where its class was
+CUSTOM = ['none', 'other-only:default'] + ['%s:%s' % (s, b) for s in ('own', 'inherited', 'inherited2', 'inherited-deep')
+                                           for b in ('none', 'value', 'raise', 'super')]
 EXC = {'ValueError': ValueError, 'TypeError': TypeError, 'AttributeError': AttributeError,
        'KeyError': KeyError, 'RuntimeError': RuntimeError}
 
@@ -51,6 +53,10 @@ def build_iface(custom, log, state):
     if custom == 'none':
         return InterfaceClass('IT', (Interface,), {}, __module__=mod)
     shape, beh = custom.split(':')
+    if shape == 'other-only':
+        def helper(self):
+            return 1
+        return InterfaceClass('IT', (Interface,), {INTERFACE_METHODS: {'helper': helper}}, __module__=mod)
 
     def __adapt__(self, obj):
         log.append('adapt')
@@ -162,7 +168,7 @@ def reference(conform, provided, hooks, alt, custom, obj, iface, state, direct_a
                 return log, ('raise', state['conform_exc'])
             if conform.startswith('value'):
                 return log, ('return', state['conform_value'])
-    beh = custom.split(':')[1] if custom != 'none' else None
+    beh = custom.split(':')[1] if custom not in ('none', 'other-only:default') else None
     res = None
     if beh in ('none', 'value', 'raise'):
         log.append('adapt')
@@ -269,6 +275,14 @@ def run_case(ctx, rng, job):
             if not (matches(eout2, got, obj, iface) and log == elog2):
                 ctx.violation('__adapt__-order', {'case': [conform, provided, ''.join(hooks), custom], 'expected_log': elog2,
                                                   'log': list(log), 'got': [got[0], repr(got[1])[:120]]}, abort=False)
+            if custom == 'other-only:default' and (idx // len(CUSTOM)) % 8 == 0:
+                # dropped and collected before the next interface class is made
+                del iface, obj, hs
+                zi.adapter_hooks[:] = []
+                import gc
+                gc.collect()
+                gc.collect()
+                ctx.count('interface_classes_collected_between_cases')
             if ctx.case == 0 and len(ctx.samples) < 3 and len(elog) >= 2:
                 ctx.sample({'mode': ctx.mode, 'case': [conform, provided, ''.join(hooks), alt, custom], 'expected_log': elog, 'outcome': eout[0]})
     finally:
